@@ -24,10 +24,10 @@ type LatLon struct
 	Lon float64
 }
 func (self *LatLon) Valid() bool {
-	if math.Abs(self.Lat) > 90 {
+	if !(math.Abs(self.Lat) <= 90) {
 		return false
 	}
-	if math.Abs(self.Lon) > 180 {
+	if !(math.Abs(self.Lon) <= 180) {
 		return false
 	}
 
